@@ -653,6 +653,12 @@ fn seqs_of<T: Ty + Clone>() -> Vec<Vec<T>> {
     for n in [23usize, 24, 255, 256] {
         out.push((0..n).map(|i| d[i % d.len()].clone()).collect());
     }
+    // the two-byte / four-byte length boundary for the cheap element types
+    if std::mem::size_of::<T>() == 1 {
+        for n in [65535usize, 65536] {
+            out.push((0..n).map(|i| d[i % d.len()].clone()).collect());
+        }
+    }
     out
 }
 
